@@ -109,12 +109,12 @@ PROPS = {
         'not_decided': ['whole-file quantifier (any byte sequence)', 'allocation bounds', 'pdf_len arithmetic overflow in parse_data_section', 'deserialize_hashmap key slicing'],
     },
     'C13': {
-        'technique': 'Verus contracts on the extracted text of LineSpectralPairs::{lsp2lpc, lsp2mgc} (IEEE ops, cos, exp uninterpreted); the two iterator-chain holes checked by Kani',
-        'level_text': 'unbounded proof (any order, even or odd) of the mechanism-level clauses of the property: the LPC polynomial is built from the line spectral frequencies w_1..w_m that FOLLOW the gain entry (cosine tables from the odd- and even-numbered frequencies), has m + 1 coefficients with a_0 = 1, the gain (or exp of the log gain) replaces a_0, the conversion to MGC is of order m, and neither function panics on a vector holding at least the gain',
-        'level_note': 'PARTIAL, mechanism level only: that the pulse response has magnitude K / |A(e^jw)|^s within 0.001 neper, and stability, are NOT decided (frequency-domain statement about an IIR filter; no float semantics in Verus, libm not modelled by CBMC); the recursion that multiplies out the LSP factors is proved panic-free but its value is not specified; mglsa.rs, gc2gc, gnorm / ignorm, freqt are outside this check',
+        'technique': 'Verus contracts on the extracted text of LineSpectralPairs::{lsp2lpc, lsp2mgc} (IEEE ops, cos, exp uninterpreted); the two iterator-chain holes and an API-level polynomial-product harness checked by Kani',
+        'level_text': 'unbounded proof (any order, even or odd) of the mechanism-level clauses of the property: the LPC polynomial is built from the line spectral frequencies w_1..w_m that FOLLOW the gain entry (cosine tables from the odd- and even-numbered frequencies), has m + 1 coefficients with a_0 = 1 and a_j = -(-0.5 (P_j + Q_j)) where P_j, Q_j are the time-j outputs of the two cascades of second-order sections 1 + t z^-1 + z^-2 fed with x[k] +- x[k-1] (even order) or x[k] and x[k] - x[k-2] (odd order), i.e. the coefficients of (P(z) + Q(z)) / 2 as HTS_lsp2lpc computes them; the gain (or exp of the log gain) replaces a_0, the conversion to MGC is of order m, and neither function panics on a vector holding at least the gain',
+        'level_note': 'PARTIAL, mechanism level only: that the pulse response has magnitude K / |A(e^jw)|^s within 0.001 neper, and stability, are NOT decided (frequency-domain statement about an IIR filter; no float semantics in Verus, libm not modelled by CBMC); that the cascade equals the polynomial product in exact arithmetic is not proved in Verus (floats are uninterpreted) but checked by Kani on orders 2..5 with exact dyadic values against products computed over the rationals; mglsa.rs, gc2gc, gnorm / ignorm, freqt are outside this check',
         'verus': ['lsp'],
         'assumptions': ['axiom_vec_len_bound: a Vec length is a usize'], 'trusted_base': [],
-        'not_decided': ['magnitude response K / |A|^s within 0.001 neper', 'decaying finite response for well-separated frequencies (check_lsp_stability, MGLSA filter)', 'value of the LSP -> LPC recursion (only which inputs it consumes, its shape and panic-freedom)', 'gc2gc / gnorm / ignorm / mgc2mgc numerics'],
+        'not_decided': ['magnitude response K / |A|^s within 0.001 neper', 'decaying finite response for well-separated frequencies (check_lsp_stability, MGLSA filter)', 'gc2gc / gnorm / ignorm / mgc2mgc numerics'],
     },
     'C15': {
         'technique': 'Verus contracts on the extracted text of StreamParameter::apply_additional_half_tone and Engine::generator; Kani harnesses pin the float values',
@@ -159,12 +159,12 @@ PROPS = {
         'not_decided': ['variance within 20% of gv_weight x GV mean', 'monotone growth with the weight', 'Models::gv switch from gv_off_context', 'numerics of conv_gv / calc_gv / next_step (which frames they rescale)', 'step-size schedule of parmgen'],
     },
     'C14': {
-        'technique': 'Verus contracts on the extracted text of MelCepstrum::postfilter_mcp (b-domain, floats and b2en uninterpreted), CepstrumT::{mc2b, freqt}, CoefficientsT::b2mc and Engine::generator; Kani harnesses for the no-op cases; native contract on Condition::set_beta',
+        'technique': 'Verus contracts on the extracted text of MelCepstrum::postfilter_mcp (b-domain, floats and b2en uninterpreted), CepstrumT::{mc2b, freqt, c2ir}, CoefficientsT::{b2mc, b2en} and Engine::generator; Kani harnesses for the no-op cases; native contract on Condition::set_beta',
         'level_text': 'unbounded proof (any order) of the b-domain update: b_k (k>=2) x (1+beta), b_1 - beta*alpha*b_2, b_0 + ln(e1/e2)/2, converted back with b2mc, and of the no-op cases; ring-identity lemma giving c_1 unchanged and c_k x (1+beta); Kani: no-op cases bit-identical for symbolic values; beta is clamped to [0,1] and reaches only Vocoder::new',
-        'level_note': 'PARTIAL: unit postfilter uses mc2b / b2mc / b2en as named functions; unit mc2b proves that the real mc2b and b2mc are the recursions b_i = c_i - alpha b_{i+1} and c_i = b_i + alpha b_{i+1} (any order, IEEE ops uninterpreted); of the energy computation (b2mc -> freqt -> c2ir -> sum of squares) only freqt is under contract (unit freqt: the recursion consumes the coefficients from the highest order down, state update as in SPTK); c2ir and the 1% tolerance are NOT decided; the c-domain statement holds in exact arithmetic (lemma over the integers)',
-        'verus': ['engine', 'postfilter', 'freqt', 'mc2b'],
+        'level_note': 'PARTIAL: unit postfilter uses mc2b / b2mc / b2en as named functions; unit mc2b proves that the real mc2b and b2mc are the recursions b_i = c_i - alpha b_{i+1} and c_i = b_i + alpha b_{i+1} (any order, IEEE ops uninterpreted); the energy computation is under contract end to end as a composition of recursions: b2en = sum of squares of the 576-tap c2ir of freqt(575, -alpha) of b2mc(alpha) (units b2en, c2ir, freqt, mc2b; the final sum is a Kani-checked hole); that this number is the impulse-response energy to within 1% (truncation to 576 taps, rounding) is NOT decided; the c-domain statement holds in exact arithmetic (lemma over the integers)',
+        'verus': ['engine', 'postfilter', 'freqt', 'mc2b', 'c2ir', 'b2en'],
         'assumptions': [], 'trusted_base': [],
-        'not_decided': ['impulse-response energy preserved within 1% (c2ir, truncation to 576 taps, rounding)'],
+        'not_decided': ['impulse-response energy preserved within 1% (truncation to 576 taps, rounding)'],
     },
     'C16': {
         'technique': 'Kani frame harness on Condition::set_volume (exp stubbed as an uninterpreted function) + Verus contract on Engine::generator',
